@@ -394,6 +394,16 @@ def c04_4(ctx, R="C04.4", eps_only=None):
             op_ = st["args"][1]
             nm = U.named_root(eb, op_)
             return nm in ("base_cost", "byte_cost") or "cost_per_byte" in str(eb.operand_term(op_))
+        # where the size cost is the raw byte cost it is `program.len() as u64 * cost_per_byte` -- the length of the buffer the
+        # caller supplied, the same quantity on both generator paths (not a re-measured length: trailing bytes are charged)
+        if ep in ("run_block_generator", "run_block_generator2"):
+            terms = []
+            for l_ in eb.local_named("byte_cost"):
+                for d_ in eb.defs().get(l_, []):
+                    if d_[0] == "s":
+                        terms.append(str(apnf.N(eb.rvalue_term(d_[3]["rv"]))))
+            ctx.ob(R, "entry:%s:byte-cost-term" % ep, terms == ["('.0', ('MulWithOverflow', ('as u64', ('len', 'program')), ('.cost_per_byte', 'constants')))"],
+                   "%s: byte cost = program.len() as u64 * constants.cost_per_byte" % ep, found=terms)
         byte_subs = [sb for sb, st in subs if _is_size_cost(st)]
         ok_b = len(byte_subs) == 1 and all(eb.dominates(byte_subs[0], bi) for bi, _ in runs)
         ctx.ob(R, "entry:%s:byte-cost" % ep, ok_b, "%s subtracts the size cost exactly once, before running any CLVM" % ep,
